@@ -227,7 +227,10 @@ class ChildWorld:
                 script = self.get_script(pl["sidx"])
                 self.clock.set_plan({"slices": [5, 3], "ms": 1000})
                 self.global_size = script.system.state_size()
-                o = st.simulate_script(script, eng)
+                if pl.get("cgmap") is not None:
+                    o = st.simulate_script(script, eng, cgmap=list(pl["cgmap"]))
+                else:
+                    o = st.simulate_script(script, eng)
             else:
                 raise ValueError(kind)
             objs[nm] = (kind, o)
@@ -435,7 +438,7 @@ class ChildWorld:
         elif name == "drive":
             # ["drive", [loop ops / sample / observe ...], cap]: repeat cyclically until a loop op returns False
             plan, cap = op[1], int(op[2])
-            obs_t, obs_n, obs_x, rets = [], [], [], []
+            obs_t, obs_n, obs_x, rets, ro = [], [], [], [], []
             nloop = 0
             done = False
             k = 0
@@ -456,15 +459,16 @@ class ChildWorld:
                 elif o[0] == "sample":
                     eng.sample()
                 elif o[0] == "progress":
-                    eng.get_progress()
+                    ro.append(float(eng.get_progress()))
                 elif o[0] == "is_complete":
-                    eng.is_complete()
+                    ro.append(bool(eng.is_complete()))
                 else:
                     raise ValueError("drive: " + o[0])
                 k += 1
                 if done and k % len(plan) == 0:
                     break
             ev["rets"] = rets
+            ev["ro"] = ro
             ev["nloop"] = nloop
             ev["done"] = done
             if want_obs:
